@@ -192,6 +192,22 @@ fn check(def: &DefSpec, run: &mut Run) -> Result<(), (Vec<u8>, String)> {
                 return Err((vec![], format!("a definition with the single literal token {} is rejected: {errs:?}", only.lit.rust())));
             }
             run.count("defs_rejected", 1);
+            // a single pattern cannot tie with anything: the flag alone must not make it unacceptable
+            if def.n_leaves() == 1 && def.leaves()[0].0.ignore_case {
+                let mut twin = def.clone();
+                for s in twin.skips.iter_mut() {
+                    s.ignore_case = false;
+                }
+                for v in twin.variants.iter_mut() {
+                    for x in v.iter_mut() {
+                        x.ignore_case = false;
+                    }
+                }
+                let dt = derive_def(&twin);
+                if dt.panic.is_none() && dt.errors.is_empty() {
+                    return Err((vec![], format!("a definition with one pattern is accepted without ignore(case) and rejected with it: {errs:?}")));
+                }
+            }
             return Ok(());
         }
         Err(PrepError::NoReference(_)) => {
